@@ -552,4 +552,6 @@ def run(cx, tier='quick'):
     rep.floor('SUM-CLONE', 15)
     rep.assumptions += ['`*self` of a Copy type is a bitwise copy', 'semantics of match / if let / struct expressions']
     rep.not_decided += ['behaviour of user-supplied clone methods']
+    from .binders import check_binder_injectivity
+    check_binder_injectivity(cx, rep, ['::clone::'])
     return rep
